@@ -749,7 +749,13 @@ class Interp:
                 if 'f' in e:
                     if e.get('adt') in getattr(self.facts, 'transparent', ()):
                         continue       # the single field of a wrapper struct that does not exist on the reference tree
-                    path = path + (('f', str(e.get('name', e['f']))),)
+                    nm_ = str(e.get('name', e['f']))
+                    rel_ = getattr(self.facts, 'relocated', None)
+                    if rel_ and e.get('adt') in rel_ and path and path[-1][0] == 'f' and (path[-1][1], nm_) in rel_[e['adt']]:
+                        # fields of the reference tree that were merged into a nested struct (Facts.relocated): `s.g.h` is the place `s.f` was
+                        path = path[:-1] + (('f', rel_[e['adt']][(path[-1][1], nm_)]),)
+                        continue
+                    path = path + (('f', nm_),)
                 elif 'downcast' in e:
                     path = path + (('dc', e['downcast']),)
                 elif 'index' in e:
@@ -773,6 +779,9 @@ class Interp:
             return ('overlay', base, deeper) if deeper else base
         if e[0] == 'f':
             name = e[1]
+            relp_ = getattr(self.facts, 'relocated_pairs', None)
+            if relp_ and v[0] == 'field' and (v[2], name) in relp_:
+                return ('field', v[1], relp_[(v[2], name)])     # (the nested struct moved out as a whole, then one of its fields read)
             if v[0] == 'agg':
                 for n, x in v[4]:
                     if n == name:
@@ -978,6 +987,19 @@ class Interp:
         if 'agg' in rv:
             ops = [self._operand(st, frame, o, fn) for o in rv['ops']]
             kind = rv['agg']
+            relo_ = getattr(self.facts, 'relocated_owner', None)
+            if kind == 'adt' and relo_ and rv.get('adt') in relo_:
+                names_ = rv.get('fields', [])
+                out_ = []
+                for i_, o_ in enumerate(ops):
+                    n_ = names_[i_] if i_ < len(names_) else str(i_)
+                    via_ = relo_[rv['adt']].get(n_)
+                    if via_ and o_[0] == 'agg' and o_[1] == 'adt' and o_[2] == via_['nested']:
+                        for h_, x_ in o_[4]:
+                            out_.append((via_['map'].get(h_, h_), x_))
+                    else:
+                        out_.append((n_, o_))
+                return ('agg', 'adt', rv['adt'], rv['variant'], tuple(out_))
             if kind == 'adt' and rv.get('adt') in self._flagenums() and not ops:
                 return C(rv.get('variant') == self._flagenums()[rv['adt']]['true_variant'])
             if kind == 'adt':
